@@ -540,6 +540,11 @@ def evaluate(ctx, case):
                     return
             if st["ordered"] is not None:
                 for f, v in (("ordered", m_ordered), ("avail", m_avail), ("instances", m_inst)):
+                    if f == "ordered" and v != st[f] and isinstance(v, list) and len(v) == len(st[f]) and \
+                            all(sorted(a) == sorted(b) for a, b in zip(v, st[f])):
+                        # the same blocks with their three fields stored in another order (a private table: benign C11-5)
+                        ctx.count("internals:block-table-fields-in-another-order")
+                        continue
                     if v != st[f]:
                         ctx.disagree(case, f"after add_ftop #{j}: {f}", st[f][:40], v[:40] if isinstance(v, list) else v)
                         return
